@@ -801,6 +801,8 @@ class Interp(object):
             return Top('list')
         g = e.generators[0]
         it = self.ev(g.iter, frame)
+        if isinstance(it, str) and len(it) <= self.UNROLL_CAP:
+            it = list(it)
         if isinstance(it, (list, tuple)) and len(it) <= self.UNROLL_CAP:
             out = []
             saved = dict(frame.locals)
@@ -1222,8 +1224,9 @@ class Interp(object):
                 return tuple(sorted(set(a0), key=repr))
             return Top('set')
         if name == 'enumerate':
-            if isinstance(a0, (list, tuple)):
-                return [(i, x) for i, x in enumerate(a0)]
+            if isinstance(a0, (list, tuple)) or (isinstance(a0, (str, bytes)) and len(a0) <= 4096):
+                st = args[1] if len(args) > 1 and isinstance(args[1], int) else kwargs.get('start', 0)
+                return [(i, x) for i, x in enumerate(a0, st if isinstance(st, int) else 0)]
             return Obj('enumerate', {'of': a0})
         if name == 'zip':
             if all(isinstance(x, (list, tuple)) for x in args):
